@@ -51,7 +51,11 @@ CardinalityRange::CardinalityRange( int min_num_values, int max_num_values):
 void CardinalityRange::gotValue()
 {
 
-   if ((mMaxNumValues != -1) && (++mNumValues > mMaxNumValues))
+   // count also when the maximum is unlimited: the minimum is checked against
+   // this number
+   ++mNumValues;
+
+   if ((mMaxNumValues != -1) && (mNumValues > mMaxNumValues))
       throw std::runtime_error( "too many values");
 
 } // CardinalityRange::gotValue
